@@ -219,16 +219,24 @@ def child_cache(case):
             r = rng.random()
             if r < 0.25 and mc.length > 1:
                 # truncate (as a reorg does): the source changes from that point on
-                if rng.random() < 0.5:
+                rr = rng.random()
+                old_len = mc.length
+                if rr < 0.35:
                     seg = 1 << mc.depth_higher
                     base = rng.randrange(1, max(2, mc.length // seg + 1)) * seg
                     t = max(1, min(len(src), base + rng.choice((-1, 0, 1))))
+                elif rr < 0.7:
+                    # inside the cache's final (possibly partial) segment, as a shallow reorg at the tip is
+                    lo = max(1, (mc.length >> mc.depth_higher) << mc.depth_higher)
+                    t = max(1, min(len(src), rng.randrange(lo, mc.length + 1)))
+                    bump('cache_truncates_inside_final_segment')
                 else:
                     t = rng.randrange(1, len(src) + 1)
                 mc.truncate(t)
                 if t < len(src):
                     gen[0] += 1
-                    newtotal = rng.randrange(t, maxlen + 1)
+                    # the source grows back (other hashes), often to at least the cache's previous length
+                    newtotal = rng.randrange(min(maxlen, max(t, old_len)) if rng.random() < 0.6 else t, maxlen + 1)
                     src[t:] = mk_hashes(newtotal - t, rng.randrange(1 << 30))
                 ops.append(('truncate', t, len(src)))
                 kinds.add('truncate')
@@ -247,8 +255,12 @@ def child_cache(case):
                 ops.append(('grow', len(src)))
             else:
                 length = rng.randrange(1, len(src) + 1)
-                if rng.random() < 0.3:
+                rq = rng.random()
+                if rq < 0.25:
                     length = len(src)
+                elif rq < 0.55 and 1 <= mc.length <= len(src):
+                    length = mc.length          # exactly the cache's length: served from the cached level without extension
+                    bump('cache_queries_at_exactly_the_cached_length')
                 index = rng.randrange(length)
                 tsc = rng.random() < 0.3
                 before = mc.length
@@ -314,6 +326,8 @@ def run(tier, seed, replay=None):
     rep.floor('branch_length_boundary', rep.counters['branch_length_boundary'], 180)
     rep.floor('cache_queries_compared', rep.counters['cache_queries_compared'], 2000)
     rep.floor('cache_truncates', rep.counters['cache_truncates'], 200)
+    rep.floor('cache_truncates_inside_final_segment', rep.counters['cache_truncates_inside_final_segment'], 100)
+    rep.floor('cache_queries_at_exactly_the_cached_length', rep.counters['cache_queries_at_exactly_the_cached_length'], 500)
     rep.floor('cache_extends', rep.counters['cache_extends'], 200)
     rep.floor('cache_reinitialisations', rep.counters['cache_reinitialisations'], 100)
     return rep.finish(
